@@ -23,7 +23,35 @@ TRUSTED = [
 ]
 ASSUMPTIONS = ["user-registered classes are themselves deterministic functions of their prng"]
 
-ENVS = [("plain", "0"), ("plain", "1"), ("plain", "4242"), ("perturb:7", "0"), ("perturb:99", "random"), ("prior", "3")]
+ENVS = [("plain", "0"), ("plain", "1"), ("plain", "4242"), ("perturb:7", "0"), ("perturb:99", "random"), ("prior", "3"),
+        ("sibling", "0"), ("same", "5")]
+
+
+def sibling_config(cfg, rng):
+    """same entities (markets, agents, names, volatilities), other parameters: correlations,
+    endowments, event parameters, session flags — what the previous point of a parameter sweep is"""
+    import copy
+    sib = copy.deepcopy(cfg)
+    sim = sib["simulation"]
+    k = rng.randint(0, 2)
+    if "fundamentalCorrelations" not in sim:
+        mk = [m for m in sim["markets"] if m.startswith("M")]
+        sim["fundamentalCorrelations"] = {"pairwise": [[mk[0], mk[1], rng.choice([0.9, -0.8])]]}
+    elif k == 0:
+        sim.pop("fundamentalCorrelations", None)
+    else:
+        for pr in sim["fundamentalCorrelations"]["pairwise"]:
+            pr[2] = -pr[2] if pr[2] else 0.5
+    for nm, blk in sib.items():
+        if isinstance(blk, dict) and blk.get("class", "").endswith("Agent") or (isinstance(blk, dict) and "numAgents" in blk):
+            if "orderMargin" in blk:
+                blk["orderMargin"] = [0.0, 0.2]
+            if "cashAmount" in blk and isinstance(blk["cashAmount"], (int, float)):
+                blk["cashAmount"] = blk["cashAmount"] + 1000
+    for nm in ("PLR", "THR"):
+        if nm in sib:
+            sib[nm]["triggerChangeRate"] = sib[nm]["triggerChangeRate"] * 2
+    return sib
 
 
 def gen_case(rng, i):
@@ -34,7 +62,8 @@ def gen_case(rng, i):
     for nm in mk:
         cfg[nm]["fundamentalVolatility"] = rng.choice([0.001, 0.01])
         cfg[nm]["outstandingShares"] = 25000
-    cfg["simulation"]["fundamentalCorrelations"] = {"pairwise": [[mk[0], mk[1], rng.choice([0.3, -0.4, 0.7])]]}
+    if i % 3 != 1:      # one case in three has uncorrelated fundamentals (its sibling run has correlated ones)
+        cfg["simulation"]["fundamentalCorrelations"] = {"pairwise": [[mk[0], mk[1], rng.choice([0.3, -0.4, 0.7])]]}
     # built-in agents
     cfg["MMA"] = {"class": "ProbeMarketMakerAgent", "numAgents": 1, "markets": [mk[0]], "assetVolume": 50, "cashAmount": 10000,
                   "targetMarket": mk[0], "netInterestSpread": 0.02, "orderTimeLength": 2}
@@ -85,7 +114,9 @@ def run(ctx, model_available=True):
         cfg = gen_case(rng, i)
         seed = rng.randint(0, 2 ** 31)
         path = os.path.join(tmp, "case%d.json" % i)
-        json.dump({"config": cfg, "seed": seed, "prior_config": prior}, open(path, "w"))
+        json.dump({"config": cfg, "seed": seed, "prior_config": prior,
+                   "sibling_config": sibling_config(cfg, rng) if i % 3 != 2 else sibling_config(gen_case(rng, i), rng)},
+                  open(path, "w"))
         cases.append((cfg, seed, path))
         for mode, hs in ENVS:
             jobs.append((i, mode, hs, path))
@@ -127,7 +158,8 @@ def run(ctx, model_available=True):
                     v = {"signature": "C07/outcome-depends-on-environment:" + part,
                          "requires": "the whole observable outcome is a function of configuration and seed only (not of the hash seed, global generator state, or earlier runs)",
                          "observed": {"differs_in": part, "environment_a": base_env, "environment_b": env},
-                         "monitor": "C07", "input": {"kind": "simulation", "config": cfg, "seed": seed, "environments": [base_env, env]}}
+                         "monitor": "C07", "input": {"kind": "simulation", "config": cfg, "seed": seed, "environments": [base_env, env],
+                                                     "sibling_config": json.load(open(path)).get("sibling_config")}}
                     if not any(x["signature"] == v["signature"] for x in violations):
                         violations.append(v)
         if len(samples) < 1:
@@ -137,7 +169,7 @@ def run(ctx, model_available=True):
         os.remove(os.path.join(tmp, f))
     os.rmdir(tmp)
     return {"evaluations": len(seen), "distinct_nontrivial": len(nontriv),
-            "rule": "configurations with all built-in agent types (FCN, MarketShareFCN normal margin, MarketMaker, Arbitrage), an index market, correlated fundamentals and all four built-in events; each run in fresh interpreters under PYTHONHASHSEED 0/1/4242/random, with perturbed global random / numpy.random state, and after a different run in the same process; non-trivial = run with > 100 logger records and > 20 notifications",
+            "rule": "configurations with all built-in agent types (FCN, MarketShareFCN normal margin, MarketMaker, Arbitrage), an index market, correlated fundamentals and all four built-in events; each run in fresh interpreters under PYTHONHASHSEED 0/1/4242/random, with perturbed global random / numpy.random state, after a different run in the same process, after a run of a sibling configuration (same entities, other parameters) and after a run of the same configuration with another seed; non-trivial = run with > 100 logger records and > 20 notifications",
             "samples": samples, "violations": violations, "diffs": diffs,
             "comparisons": {"environment_pairs_compared": checks}, "traces_validated": len(cases),
             "distribution": dist, "monitor_checks": checks}
@@ -155,7 +187,8 @@ def replay(obj):
     inp = obj["input"]
     d = os.path.join(common.VERIF, "replays")
     path = os.path.join(d, "_c07_replay_case.json")
-    json.dump({"config": inp["config"], "seed": inp["seed"], "prior_config": inp["config"]}, open(path, "w"))
+    json.dump({"config": inp["config"], "seed": inp["seed"], "prior_config": inp["config"],
+               "sibling_config": inp.get("sibling_config", inp["config"])}, open(path, "w"))
     rs = [run_worker(path, m, h) for m, h in ENVS]
     os.remove(path)
     bad = [i for i, r in enumerate(rs) if any(r.get(k) != rs[0].get(k) for k in ("records", "callbacks", "series", "holdings"))]
